@@ -505,7 +505,7 @@ fn run_workload(ctx: &mut Ctx, wid: usize, model_ops: &str, stmts: &[String], ou
             // crash inside the recovery of this image
             let mut rr = vec![];
             let do_recrash = if ctx.thorough {
-                kind == "at-point" || j % 5 == 0
+                (kind == "at-point" && n % 2 == 0) || (kind != "at-point" && j % 41 == 0)
             } else {
                 (kind == "at-point" && (n % 6 == 0 || p.name.contains("dv") || p.name.contains("precommit") || p.name.contains("vacuum")))
                     || (kind != "at-point" && j % 11 == 0)
@@ -519,7 +519,7 @@ fn run_workload(ctx: &mut Ctx, wid: usize, model_ops: &str, stmts: &[String], ou
                     if q.name == "persist.manifest.append" && m + 1 < rp.len() {
                         for c in diff(&q.snap, &rp[m + 1].snap) {
                             if let Change::Append(f, old, new) = c {
-                                for j in prefixes(old, new, &[], ctx.thorough) {
+                                for j in prefixes(old, new, &[], false) {
                                     let mut s = q.snap.clone();
                                     s.insert(f.clone(), Some(rp[m + 1].snap[&f].as_ref().unwrap()[..j].to_vec()));
                                     let r3 = reopen_image(ctx, &s, false, false);
@@ -670,14 +670,17 @@ fn main() {
             let thorough = args.get(5).map(|s| s == "thorough").unwrap_or(false);
             let mut ctx = Ctx { rt: runtime(), work: PathBuf::from(&args[4]), thorough, n_img: 0 };
             std::fs::create_dir_all(&ctx.work).unwrap();
-            let mut out = vec![];
+            use std::io::Write;
+            let mut file = std::fs::File::create(&args[3]).unwrap();
             for (wid, l) in read_lines(&args[2]).iter().enumerate() {
                 let (m, s) = l.split_once('\t').unwrap();
                 let stmts: Vec<String> = s.split(';').map(|x| x.to_string()).collect();
+                let mut out = vec![];
                 run_workload(&mut ctx, wid, m, &stmts, &mut out);
+                // written per workload: a thorough run produces tens of thousands of records
+                let text: String = out.iter().map(|v| v.to_string() + "\n").collect();
+                file.write_all(text.as_bytes()).unwrap();
             }
-            let text: String = out.iter().map(|v| v.to_string() + "\n").collect();
-            std::fs::write(&args[3], text).unwrap();
         }
         _ => panic!("usage"),
     }
